@@ -71,12 +71,34 @@ class VecMapping(AlternativeMapping[Vec]):
 
 
 @dataclass(eq=False)
+class Pin:
+    """alternatively mapped AND part of reference cycles (Item.pin <-> Pin.host)"""
+    uid: int = 0
+    host: Optional[Item] = None
+    note: Dict[str, int] = field(default_factory=dict)
+
+
+@dataclass
+class PinMapping(AlternativeMapping[Pin]):
+    uid: int
+    host: Optional[Item]
+
+    @classmethod
+    def create_instance(cls, obj: Pin) -> Self:
+        return cls(obj.uid, obj.host)
+
+    def create_from_dao(self) -> Pin:
+        return Pin(self.uid, self.host)
+
+
+@dataclass(eq=False)
 class Item:
     uid: int = 0
     n: int = 0
     price: Optional[Money] = None
     holder: Optional[Holder] = None
     spot: Optional[Vec] = None
+    pin: Optional[Pin] = None
 
 
 @dataclass(eq=False)
@@ -138,5 +160,5 @@ class Circle(ShapeBase):
     center: Optional[Vec] = None
 
 
-VERIF_CLASSES = [Vec, Item, Holder, Base0, Mid, Leaf, ShapeBase, Circle]
-VERIF_ORMATIC = {"alternative_mappings": [VecMapping, ShapeBaseMapping], "type_mappings": {Money: MoneyType}}
+VERIF_CLASSES = [Vec, Pin, Item, Holder, Base0, Mid, Leaf, ShapeBase, Circle]
+VERIF_ORMATIC = {"alternative_mappings": [VecMapping, PinMapping, ShapeBaseMapping], "type_mappings": {Money: MoneyType}}
